@@ -21,6 +21,10 @@ type Live struct {
 	// AsyncPrefix: the run had an arbitrary asynchronous (loss-free) prefix; see End for the bound.
 	AsyncPrefix bool
 	lockedAtGST int
+	// viaRecovery: (node, height, view) entered while the node was processing a recovery message; a primary
+	// that enters its view this way arms a backup's timeout instead of proposing at once (DESIGN 5.21)
+	viaRecovery map[[3]uint32]bool
+	inRecovery  map[int]bool
 	Inconclusive bool
 	v0           int
 	gstSeen      int64
@@ -84,6 +88,19 @@ func (u *catchUp) rule(b *Base, c *vnet.Cluster, e *vnet.Event) {
 
 func (m *Live) Event(c *vnet.Cluster, e *vnet.Event) {
 	m.catchUpRule(c, e)
+	if e.Node >= 0 {
+		if m.inRecovery == nil {
+			m.inRecovery, m.viaRecovery = map[int]bool{}, map[[3]uint32]bool{}
+		}
+		switch {
+		case e.Kind == vnet.KAPICall && e.Depth == 0:
+			m.inRecovery[e.Node] = e.API == "OnReceive" && e.P != nil && e.P.T == dbft.RecoveryMessageType
+		case e.Kind == vnet.KAPIRet && e.Depth == 0:
+			m.inRecovery[e.Node] = false
+		case e.Kind == vnet.KEpoch && e.H == e.TH && m.inRecovery[e.Node]:
+			m.viaRecovery[[3]uint32{uint32(e.Node), e.H, uint32(e.V)}] = true
+		}
+	}
 	// track the highest view held by a live node up to the last fault instant
 	if e.Kind == vnet.KEpoch && e.Clock <= c.LastFault() && int(e.V) > m.v0 {
 		m.v0 = int(e.V)
@@ -157,7 +174,9 @@ func (m *Live) End(c *vnet.Cluster) {
 			if gap := a.Clock - last; gap > B {
 				m.fail(c, "progress-bound-exceeded", "n%d needed %s of virtual time after %s to get height %d (bound %s = 16*2^(%d+%d)*%s, GST=%s)", n.ID, time.Duration(gap), time.Duration(last), a.Height, time.Duration(B), m.v0, m.Silent, time.Duration(T), time.Duration(gst))
 			}
-			if m.FromStart && !a.Synced && int(a.View) > m.Silent {
+			if m.FromStart && !a.Synced && int(a.View) > m.Silent && m.primariesWaitedAfterRecovery(c, a.Height, int(a.View)) {
+				m.fail(c, "view-above-silent-count:primary-waited-after-recovery", "n%d decided height %d in view %d with %d validator(s) silent from the start: the live primary of every other wasted view entered its view while processing a recovery message and therefore armed a backup's timeout instead of proposing at once; the backups timed out first", n.ID, a.Height, a.View, m.Silent)
+			} else if m.FromStart && !a.Synced && int(a.View) > m.Silent {
 				m.fail(c, "view-above-silent-count", "n%d decided height %d in view %d with %d validator(s) silent from the start", n.ID, a.Height, a.View, m.Silent)
 			}
 			last, h = a.Clock, a.Height
@@ -182,6 +201,30 @@ func (m *Live) End(c *vnet.Cluster) {
 		}
 		_ = h
 	}
+}
+
+// primariesWaitedAfterRecovery tells whether every wasted view (0..decided-1) of height h either had a
+// silent primary or a live primary that entered the view while it was processing a recovery message.
+func (m *Live) primariesWaitedAfterRecovery(c *vnet.Cluster, h uint32, decided int) bool {
+	nv := len(c.Validators(h))
+	if nv == 0 {
+		return false
+	}
+	waited := 0
+	for v := 0; v < decided; v++ {
+		p := c.NodeOfIndex(h, primaryOf(h, byte(v), nv))
+		if p == nil {
+			return false
+		}
+		if p.Role == vnet.Silent {
+			continue
+		}
+		if !m.viaRecovery[[3]uint32{uint32(p.ID), h, uint32(v)}] {
+			return false
+		}
+		waited++
+	}
+	return waited > 0
 }
 
 // commitSplit tells whether the validators working on height h are commit-locked in such a way that
